@@ -63,7 +63,7 @@ Definition t_info : str := [60;105;110;102;111;62;49;50;51;52;53;60;47;105;110;1
 Definition t_inline : str := [112;60;102;103;61;114;101;100;62;113;60;47;62;114;32;97;92;60;98]%N.             (* p<fg=red>q</>r a\<b *)
 (* raw length 23 at width 10: ONE row, the screen shows 1234567890 *)
 Example c15_tagged_one_row :
-  match srun true 10 [] demo_f [SCreate; SWrite 0 t_info true] with
+  match srun true 10 [] demo_f [SCreate 0; SWrite 0 t_info true] with
   | Ok (st, _, es) => map sc_lines st = [1] /\ rows (feed 10 term_init es) = [[49;50;51;52;53;54;55;56;57;48]%N; []]
   | Err _ => False
   end.
@@ -71,18 +71,18 @@ Proof. vm_compute. split; reflexivity. Qed.
 (* the premises of screen_is_stack are satisfiable: tags, an inline style, an escaped '<', indentation, a partial clear *)
 Example c15_good_ops :
   good_opsb (f_styles demo_f)
-    [SCreate; SCreate; SIndent 0 3; SWrite 0 t_info true; SWrite 1 t_inline true; SOverwrite 0 t_inline; SClear 1 (Some 1)] = true
+    [SCreate 0; SCreate 0; SIndent 0 3; SWrite 0 t_info true; SWrite 1 t_inline true; SOverwrite 0 t_inline; SClear 1 (Some 1)] = true
   /\ is_ansi demo_f /\ f_stack demo_f = [].
 Proof. vm_compute. repeat split. Qed.
 Example c15_wrapped_partial_clear :
-  let ops := [SCreate; SCreate; SWrite 0 (repeat 97%N 25) true; SWrite 1 [98; 98]%N true; SWrite 0 [99]%N true; SClear 0 (Some 2)] in
+  let ops := [SCreate 0; SCreate 0; SWrite 0 (repeat 97%N 25) true; SWrite 1 [98; 98]%N true; SWrite 0 [99]%N true; SClear 0 (Some 2)] in
   match srun true 10 [] demo_f ops with Ok (st, _, es) => rows (feed 10 term_init es) = [[98; 98]%N; []] | Err _ => False end.
 Proof. vm_compute. reflexivity. Qed.
 (* an EMPTY line under an indentation wider than the terminal (12 at width 10) is one row: add_content, like
    Output.write, gives an empty line no blanks (before /repo c052dce it kept 12 blanks for it, counted 2 rows, and the
    clear erased "top" of the section above).  Inside the class of screen_is_stack; the screen equals the stack. *)
 Example c15_indented_empty_line_too_wide :
-  let ops := [SCreate; SCreate; SWrite 0 [116;111;112]%N true; SIndent 1 12; SWrite 1 [] true; SWrite 1 [121]%N true; SClear 1 (Some 1)] in
+  let ops := [SCreate 0; SCreate 0; SWrite 0 [116;111;112]%N true; SIndent 1 12; SWrite 1 [] true; SWrite 1 [121]%N true; SClear 1 (Some 1)] in
   match srun true 10 [] demo_f ops with
   | Ok (st, _, es) => feed 10 term_init es = screen 10 (f_styles demo_f) st
                       /\ stacked 10 (f_styles demo_f) st = [[116;111;112]%N; []]
